@@ -9,17 +9,18 @@ set_option linter.unusedSectionVars false
 namespace C02
 variable {K V C : Type} [DecidableEq K]
 
-/-- a family of predicates (index: misses not yet matched by soft misses) kept by the primitive steps -/
-structure MInv (M : Mach K V C) (Q : Nat → C → Prop) : Prop where
+/-- a family of predicates (index: misses not yet matched by soft misses) kept by the primitive steps;
+    `QC` is what holds of a cache returned by copy() -/
+structure MInv (M : Mach K V C) (Q : Nat → C → Prop) (QC : C → Prop) : Prop where
   weaken : ∀ {n c}, Q (n + 1) c → Q n c
   hit : ∀ {n c} (k : K), Q n c → M.find c k = true → Q n (M.hit c k).1 ∧ ∃ v, (M.hit c k).2 = .val v
   missed : ∀ {n c} (k : K), Q n c → Q (n + 1) (M.missed c k)
   setitem : ∀ {n c} (k : K) (v : V), Q n c → Q n (M.setitem c k v)
   soft : ∀ {n c}, Q (n + 1) c → Q n (M.soft c)
   step : ∀ {n c} (op : Op K V), Q n c → op.isLookup = false →
-    Q n (M.step c op).1 ∧ ∀ m, (M.step c op).2 = .cache m → Q 0 m
+    Q n (M.step c op).1 ∧ ∀ m, (M.step c op).2 = .cache m → QC m
 
-variable {M : Mach K V C} {Q : Nat → C → Prop}
+variable {M : Mach K V C} {Q : Nat → C → Prop} {QC : C → Prop}
 
 theorem OutRel.refl_of {R : C → C → Prop} (o : Out K V C) (h : ∀ m, o = .cache m → R m m) : OutRel R o o := by
   cases o with
@@ -33,7 +34,7 @@ theorem OutRel.refl_of {R : C → C → Prop} (o : Out K V C) (h : ∀ m, o = .c
   | nat n => exact OutRel.nat n
   | items l => exact OutRel.items l
 
-theorem MInv.toMSim (h : MInv M Q) : MSim M M (fun n c s => c = s ∧ Q n c) where
+theorem MInv.toMSim (h : MInv M Q QC) : MSim M M (fun n c s => c = s ∧ Q n c) (fun c s => c = s ∧ QC c) where
   weaken := fun ⟨e, q⟩ => ⟨e, h.weaken q⟩
   find := fun k ⟨e, _⟩ => by rw [e]
   hit := fun k ⟨e, q⟩ hf => by
@@ -49,8 +50,8 @@ theorem MInv.toMSim (h : MInv M Q) : MSim M M (fun n c s => c = s ∧ Q n c) whe
     exact ⟨⟨rfl, q'⟩, OutRel.refl_of _ (fun m hm => ⟨rfl, hc m hm⟩)⟩
 
 /-- one public call with a re-entrant on_miss keeps the invariant; a cache returned by copy() has it -/
-theorem MInv.rstep (h : MInv M Q) (P : K → OmProg K V) (fuel : Nat) {n : Nat} {c : C} (q : Q n c) (op : Op K V) :
-    Q n (M.rstep P fuel c op).1 ∧ ∀ m, (M.rstep P fuel c op).2 = .cache m → Q 0 m := by
+theorem MInv.rstep (h : MInv M Q QC) (P : K → OmProg K V) (fuel : Nat) {n : Nat} {c : C} (q : Q n c) (op : Op K V) :
+    Q n (M.rstep P fuel c op).1 ∧ ∀ m, (M.rstep P fuel c op).2 = .cache m → QC m := by
   have := h.toMSim.rstep P fuel (n := n) (c := c) (s := c) ⟨rfl, q⟩ op
   refine ⟨this.1.2, fun m hm => ?_⟩
   have ho := this.2
@@ -60,18 +61,18 @@ theorem MInv.rstep (h : MInv M Q) (P : K → OmProg K V) (fuel : Nat) {n : Nat} 
 
 /-- `__getitem__` with a re-entrant on_miss keeps the invariant; after a KeyError outcome one more miss
     than soft misses has been counted -/
-theorem MInv.rget (h : MInv M Q) (P : K → OmProg K V) (fuel : Nat) {n : Nat} {c : C} (q : Q n c) (k : K) :
+theorem MInv.rget (h : MInv M Q QC) (P : K → OmProg K V) (fuel : Nat) {n : Nat} {c : C} (q : Q n c) (k : K) :
     Q n (M.rget P fuel c k).1 ∧ ((M.rget P fuel c k).2 = .keyError → Q (n + 1) (M.rget P fuel c k).1) := by
   have := h.toMSim.rget P fuel n c c k ⟨rfl, q⟩
   exact ⟨this.1.2, fun e => (this.2.2 e).2⟩
 
 /-- the body of an on_miss program keeps the invariant -/
-theorem MInv.runBody (h : MInv M Q) (P : K → OmProg K V) (fuel : Nat) (l : List (Op K V)) {n : Nat} {c : C}
+theorem MInv.runBody (h : MInv M Q QC) (P : K → OmProg K V) (fuel : Nat) (l : List (Op K V)) {n : Nat} {c : C}
     (q : Q n c) : Q n (runWith (M.rstep P fuel) c l).1 :=
   (h.toMSim.runWith (h.toMSim.rget P fuel) l (n := n) (c := c) (s := c) ⟨rfl, q⟩).1.2
 
 /-- a whole history -/
-theorem MInv.rrun (h : MInv M Q) (P : K → OmProg K V) (fuel : Nat) {n : Nat} {c : C} (q : Q n c)
+theorem MInv.rrun (h : MInv M Q QC) (P : K → OmProg K V) (fuel : Nat) {n : Nat} {c : C} (q : Q n c)
     (ops : List (Op K V)) : Q n (M.rrun P fuel c ops) := by
   unfold Mach.rrun
   induction ops generalizing c with
@@ -122,7 +123,7 @@ theorem step_cache_out {c m : Cache K V} {op : Op K V} (hop : op.isLookup = fals
   | eqOther => cases hm
   | neOther => cases hm
 
-theorem Cache.machInv : MInv (Cache.mach (K := K) (V := V)) InvN where
+theorem Cache.machInv : MInv (Cache.mach (K := K) (V := V)) InvN (InvN 0) where
   weaken := fun h => ⟨h.1, by have := h.2; omega⟩
   hit := fun {n c} k h hf => by
     obtain ⟨v, _, hg⟩ := Cache.getitem_found hf
@@ -147,7 +148,7 @@ theorem Cache.machInv : MInv (Cache.mach (K := K) (V := V)) InvN where
 
 /-- class, capacity and on_miss field are constant -/
 theorem Cache.machConfig (cfg : Bool × Nat × Option (K → OmRes V)) :
-    MInv (Cache.mach (K := K) (V := V)) (fun _ c => c.config = cfg) where
+    MInv (Cache.mach (K := K) (V := V)) (fun _ c => c.config = cfg) (fun c => c.config = cfg) where
   weaken := fun h => h
   hit := fun {n c} k h hf => by
     obtain ⟨v, _, hg⟩ := Cache.getitem_found hf
@@ -282,5 +283,87 @@ theorem Cache.rstep_pure (P : K → OmProg K V) (hP : ∀ k, (P k).acts = []) (n
   | updateFail l => rfl
   | eqOther => rfl
   | neOther => rfl
+
+/-! what a call can only add to: the on_miss log and the three counters -/
+
+/-- `c` comes after `b`: its on_miss log extends `b`'s, no counter went down -/
+structure Mono (b c : Cache K V) : Prop where
+  log : ∃ l, c.omLog = b.omLog ++ l
+  miss : b.miss ≤ c.miss
+  hit : b.hit ≤ c.hit
+  soft : b.soft ≤ c.soft
+
+theorem Mono.refl (b : Cache K V) : Mono b b := ⟨⟨[], by simp⟩, Nat.le_refl _, Nat.le_refl _, Nat.le_refl _⟩
+
+theorem Cache.machMono (b : Cache K V) :
+    MInv (Cache.mach (K := K) (V := V)) (fun _ c => Mono b c) (fun _ => True) where
+  weaken := fun h => h
+  hit := fun {n c} k h hf => by
+    obtain ⟨v, _, hg⟩ := Cache.getitem_found hf
+    refine ⟨?_, v, by show (c.getitem k).2 = _; rw [hg]⟩
+    show Mono b (c.getitem k).1
+    rw [hg]
+    exact ⟨h.log, h.miss, Nat.le_succ_of_le h.hit, h.soft⟩
+  missed := fun {n c} k h => by
+    obtain ⟨l, hl⟩ := h.log
+    exact ⟨⟨l ++ [k], by show c.omLog ++ [k] = _; rw [hl, List.append_assoc]⟩, Nat.le_succ_of_le h.miss, h.hit, h.soft⟩
+  setitem := fun {n c} k v h => by
+    show Mono b (c.setitem k v)
+    exact ⟨by simpa using h.log, by simpa using h.miss, by simpa using h.hit, by simpa using h.soft⟩
+  soft := fun {n c} h => ⟨h.log, h.miss, h.hit, Nat.le_succ_of_le h.soft⟩
+  step := fun {n c} op h hop => by
+    have hc := step_nonlookup c op (Op.lookupKey_of_not_isLookup hop)
+    refine ⟨?_, fun _ _ => trivial⟩
+    show Mono b (C02.step c op).1
+    exact ⟨by rw [hc.2.2.2]; exact h.log, by rw [hc.2.1]; exact h.miss, by rw [hc.1]; exact h.hit,
+      by rw [hc.2.2.1]; exact h.soft⟩
+
+/-- get / setdefault add nothing to the on_miss log, the hits and the misses of their `__getitem__` -/
+theorem Cache.rstep_lookup_log (P : K → OmProg K V) (fuel : Nat) (c : Cache K V) {op : Op K V} {k : K}
+    (hop : op.lookupKey = some k) :
+    (Cache.mach.rstep P fuel c op).1.omLog = (Cache.mach.rget P fuel c k).1.omLog ∧
+    (Cache.mach.rstep P fuel c op).1.miss = (Cache.mach.rget P fuel c k).1.miss ∧
+    (Cache.mach.rstep P fuel c op).1.hit = (Cache.mach.rget P fuel c k).1.hit := by
+  cases op with
+  | getitem k' => simp [Op.lookupKey] at hop; subst hop; exact ⟨rfl, rfl, rfl⟩
+  | get k' d =>
+    simp [Op.lookupKey] at hop; subst hop
+    simp only [Mach.rstep, Mach.stepWith]
+    cases Cache.mach.rget P fuel c k' with
+    | mk c' o => cases o <;> exact ⟨rfl, rfl, rfl⟩
+  | setdefault k' d =>
+    simp [Op.lookupKey] at hop; subst hop
+    simp only [Mach.rstep, Mach.stepWith]
+    cases Cache.mach.rget P fuel c k' with
+    | mk c' o =>
+      cases o <;> first | exact ⟨rfl, rfl, rfl⟩ | (refine ⟨?_, ?_, ?_⟩ <;> simp [Cache.mach])
+  | _ => simp [Op.lookupKey] at hop
+
+/-- `__getitem__` of an absent key: on_miss is entered with that key first; whatever it does then only
+    extends the log and raises the counters -/
+theorem Cache.rget_absent_log (P : K → OmProg K V) (fuel : Nat) {c : Cache K V} {k : K}
+    (hk : lookup k c.ring = none) :
+    (∃ l, (Cache.mach.rget P fuel c k).1.omLog = c.omLog ++ k :: l) ∧
+    c.miss + 1 ≤ (Cache.mach.rget P fuel c k).1.miss ∧ c.hit ≤ (Cache.mach.rget P fuel c k).1.hit := by
+  cases fuel with
+  | zero => rw [Cache.rget_absent_zero P hk]; exact ⟨⟨[], rfl⟩, Nat.le_refl _, Nat.le_refl _⟩
+  | succ n =>
+    have hb := (Cache.machMono (Cache.mach.missed c k)).runBody P n (P k).acts (n := 0) (Mono.refl _)
+    cases hr : runWith (Cache.mach.rstep P n) (Cache.mach.missed c k) (P k).acts with
+    | mk body e =>
+      rw [hr] at hb
+      obtain ⟨l, hl⟩ := hb.log
+      have hl' : body.omLog = c.omLog ++ k :: l := by
+        rw [hl]; show (c.omLog ++ [k]) ++ l = _; simp
+      have hm : c.miss + 1 ≤ body.miss := hb.miss
+      have hh : c.hit ≤ body.hit := hb.hit
+      cases e with
+      | some x => rw [Cache.rget_absent_raise P n hk hr]; exact ⟨⟨l, hl'⟩, hm, hh⟩
+      | none =>
+        rw [Cache.rget_absent_done P n hk hr]
+        cases (P k).res with
+        | ret v => exact ⟨⟨l, by simpa using hl'⟩, by simpa using hm, by simpa using hh⟩
+        | keyError => exact ⟨⟨l, hl'⟩, hm, hh⟩
+        | error => exact ⟨⟨l, hl'⟩, hm, hh⟩
 
 end C02
